@@ -275,9 +275,12 @@ def concrete_vals_of(src):
 # --------------------------------------------------------------------------------------
 # running one harness
 # --------------------------------------------------------------------------------------
-def harness_cmd(h, playback=False):
+def harness_cmd(h, playback=False, failed=()):
     cmd = list(KANI_BASE)
-    if not h.memsafe:
+    # the counterexample of a failed assertion / panic does not need CBMC's pointer checks (they triple the
+    # formula and made playback runs of heap-heavy harnesses run out of memory)
+    pointer_failure = any(("pointer" in c["id"] or "dereference" in c["description"]) for c in failed)
+    if not h.memsafe or (playback and not pointer_failure):
         cmd += ["--no-memory-safety-checks"]
     # CBMC's float overflow / NaN checks have no native counterpart (a failure could never be
     # replayed); NaN-freedom is asserted explicitly where it is the claim. Rust arithmetic
@@ -336,7 +339,7 @@ def replay_natively(h, crate, logdir, failed, tier):
     out = {"reproduced": False, "tests": [], "reason": ""}
     log = os.path.join(logdir, h.name + ".playback.log")
     timeout = 3 * (h.timeout or DEFAULT_TIMEOUT[tier])
-    rc, to = run(harness_cmd(h, playback=True), crate, log, timeout, MEM_LIMIT_KB)
+    rc, to = run(harness_cmd(h, playback=True, failed=failed), crate, log, timeout, MEM_LIMIT_KB)
     text = open(log, errors="replace").read()
     tests = [t for t in parse_playback(text) if t[0] != "cover"]
     if not tests:
